@@ -84,7 +84,7 @@ fn ext_space() -> ProgSpace {
 pub fn run(ctx: &Ctx) -> Report {
     let mut rep = Report::new("C08", "exploration");
     let flagsets = flagsets_c08(ctx);
-    let spaces: Vec<ProgSpace> = vec![p5_full(), p_guard_args(), ext_space(), p_vectors(ctx.pick(2, 6))];
+    let spaces: Vec<ProgSpace> = vec![p5_full(), p_guard_args(), p_guard_then_op(), ext_space(), p_vectors(ctx.pick(2, 6))];
     let seed = ctx.seed;
     let mut notes = vec![];
     for sp in &spaces {
@@ -173,15 +173,18 @@ pub fn run_c31(ctx: &Ctx) -> Report {
         vec![ClvmFlags::empty(), ClvmFlags::NEW_COST_MODEL, ClvmFlags::ENABLE_GC | ClvmFlags::LIMIT_SOFTFORK],
         vec![ClvmFlags::empty(), ClvmFlags::NEW_COST_MODEL, ClvmFlags::ENABLE_GC, ClvmFlags::ENABLE_GC | ClvmFlags::NEW_COST_MODEL, ClvmFlags::LIMIT_SOFTFORK, ClvmFlags::MALACHITE | ClvmFlags::LIMITS, ClvmFlags::NEW_COST_MODEL | ClvmFlags::ENABLE_KECCAK_OPS_OUTSIDE_GUARD | ClvmFlags::ENABLE_SHA256_TREE],
     );
-    let sp = p5_full();
     let seed = ctx.seed;
     let nf = flagsets.len() as u64;
-    let acc = par_for(ctx, sp.total * nf, 16, |i| { let (p, e) = sp.at(i / nf); format!("prog={} env={} flags={:#x}", p.hex(), e.hex(), flagsets[(i % nf) as usize].bits()) }, |i, acc| {
-        let (p, e) = sp.at(i / nf);
-        check_c31(&p, &e, flagsets[(i % nf) as usize], acc, &sp.name);
-        acc.inc("cases");
-        acc.maybe_sample(sample_key(seed, i), || json!({"prog": p.hex(), "flags": format!("{:#x}", flagsets[(i % nf) as usize].bits())}));
-    });
+    for sp in [p5_full(), p_guard_args(), p_guard_then_op()] {
+        let acc = par_for(ctx, sp.total * nf, 16, |i| { let (p, e) = sp.at(i / nf); format!("prog={} env={} flags={:#x}", p.hex(), e.hex(), flagsets[(i % nf) as usize].bits()) }, |i, acc| {
+            let (p, e) = sp.at(i / nf);
+            check_c31(&p, &e, flagsets[(i % nf) as usize], acc, &sp.name);
+            acc.inc("cases");
+            acc.maybe_sample(sample_key(seed, i ^ fnv(sp.name.as_bytes())), || json!({"prog": p.hex(), "flags": format!("{:#x}", flagsets[(i % nf) as usize].bits())}));
+        });
+        rep.absorb(acc);
+    }
+    let acc = Acc::default();
     rep.absorb(acc);
     // nesting depth
     let mut acc = Acc::default();
